@@ -44,7 +44,7 @@ def run(chk):
         try:
             lrender.report_build_problems(chk, b, files)
             pool = ["", " ", "  x", "y  ", " z ", "\tt\t", "a\nb", "\n", "plain", "<i>", "a b", "é", "~☢", "☢~"]
-            recs = lrender.run_envs(b, files, lambda f, t: [gen_tmpl.gen_env(rng, strings=pool) for _ in range(4)])
+            recs = lrender.run_envs(b, files, lambda f, t: [gen_tmpl.gen_env(rng, strings=pool) for _ in range(4)], as_built=True)
         finally:
             b.close()
         nbad = 0
